@@ -179,6 +179,10 @@ func (c BatchedPrivateClient) CreateTokenRequestWithBlinds(challenge []byte, non
 		if err != nil {
 			return BatchedPrivateTokenRequestState{}, err
 		}
+		if blinds[i].IsZero() {
+			// RFC 9497, Section 3.3.1: a blind is a non-zero scalar; zero has no inverse and blinds to the identity
+			return BatchedPrivateTokenRequestState{}, fmt.Errorf("invalid blind")
+		}
 	}
 
 	finalizeData, evalRequest, err := client.DeterministicBlind(tokenInputs, blinds)
